@@ -72,50 +72,53 @@ end CkbVerif.Freeze
 namespace CkbVerif.Freeze
 open CkbVerif.Store
 
-/-- the repaired `get_block` never answers with another block … -/
-theorem getBlockF17_sound (s : FS) (hid : ∀ id blk, s.v.r.bodies id = some blk → blk.id = id)
-    (id : Nat) (b : Block) (h : getBlockF17 s id = .some b) : b.id = id := by
-  unfold getBlockF17 at h
+/-- `get_frozen_block` only ever answers with the block asked for (the hash test of the F17 repair) -/
+theorem getFrozen_sound (s : FS) (id : Nat) (b : Block) (h : getFrozen s id = some b) : b.id = id := by
+  unfold getFrozen at h
+  split at h
+  · cases h
+  · split at h
+    · cases h
+    · split at h
+      · split at h
+        · split at h
+          · rename_i hfb; cases h; exact hfb
+          · cases h
+        · cases h
+      · cases h
+
+/-- `get_block` as /repo has it never answers with another block (it did before ea444a5) -/
+theorem getBlock_sound (s : FS) (hid : ∀ id blk, s.v.r.bodies id = some blk → blk.id = id)
+    (id : Nat) (b : Block) (h : getBlock s id = .some b) : b.id = id := by
+  unfold getBlock at h
   split at h
   · cases h
   · split at h
     · cases h
     · rename_i blk hb
-      have hkv : ∀ {x : Ans Block}, x = (if s.body id = true then Ans.some blk else Ans.panic) → x = .some b → b.id = id := by
-        intro x hx hxb
-        rw [hx] at hxb
-        split at hxb
-        · cases hxb; exact hid id _ hb
-        · cases hxb
-      simp only at h
       split at h
+      · rename_i fb hfb
+        cases h
+        exact getFrozen_sound s id _ hfb
       · split at h
-        · rename_i fb _
-          split at h
-          · rename_i hfb; cases h; exact hfb
-          · exact hkv rfl h
+        · cases h; exact hid id _ hb
         · cases h
-      · exact hkv rfl h
 
-/-- … and on main-chain blocks it is the same as before (so everything proved for `getBlock` holds) -/
-theorem getBlockF17_main (s : FS) (h : Inv s) (id : Nat) (blk : Block) (hm : OnMain s id blk) :
-    getBlockF17 s id = .some blk := by
-  have h0 := getBlock_main s h id blk hm
-  unfold getBlock at h0
-  unfold getBlockF17
-  rw [h.hdrOk id blk hm] at h0 ⊢
-  simp only [Bool.not_true, Bool.false_eq_true, if_false, hm.1] at h0 ⊢
-  by_cases hc : (decide (0 < blk.number) && decide (blk.number < frozenNumber s)) = true
-  · simp only [hc, if_true] at h0 ⊢
-    cases hf : s.frozen[blk.number - 1]? with
-    | none => rw [hf] at h0; cases h0
-    | some fb =>
-      rw [hf] at h0
-      simp only at h0 ⊢
-      cases h0
-      have : blk.id = id := h.idOk id blk hm.1
-      simp [this]
-  · simp only [hc] at h0 ⊢
-    exact h0
+/-- neither do the part accessors and `get_packed_block` -/
+theorem getPart_sound (s : FS) (hid : ∀ id blk, s.v.r.bodies id = some blk → blk.id = id)
+    (id : Nat) (b : Block) (h : getPart s id = some b) : b.id = id := by
+  unfold getPart at h
+  split at h
+  · exact hid id b h
+  · exact getFrozen_sound s id b h
+
+theorem getPacked_sound (s : FS) (hid : ∀ id blk, s.v.r.bodies id = some blk → blk.id = id)
+    (id : Nat) (b : Block) (h : getPacked s id = some b) : b.id = id := by
+  unfold getPacked at h
+  split at h
+  · rename_i fb hfb; cases h; exact getFrozen_sound s id _ hfb
+  · split at h
+    · exact hid id b h
+    · cases h
 
 end CkbVerif.Freeze
